@@ -257,7 +257,7 @@ LEVELS = {
                 note=PROOF_NOTE, technique="Coq proof: permutation invariance of every map-iteration site + generated map-range/clock inventory obligation + two executions per history on the real app"),
     'C08': dict(text="Unbounded theorems: uint64/int64 round arithmetic for every accepted vote period; in every block-structured history the stored round info is the round of the executing height; exact acceptance conditions of prevote and vote; the tally gate opens once per round, at its last block; no ballot survives a tally; a replayed vote is rejected. Correspondence on ABCI histories with messages at every window offset.",
                 note=PROOF_NOTE, technique="Coq proof: invariant over block-structured histories of the composed chain model + lia/nia arithmetic + differential correspondence"),
-    'C10': dict(text="Unbounded theorems: recipients of a new record are exactly the on-chain owner (this chain), empty (supported external chain) or the record is rejected; transactions and environment never modify an existing record; an end-block changes a pending record only at a tally, only if it had no recipients and was created before the tallied round, only to the owner accepted for its NFT; set recipients are never overwritten; the published source list is exactly the unfilled records older than the cut-off.",
+    'C10': dict(text="Unbounded theorems: recipients of a new record are exactly the on-chain owner (this chain), empty (supported external chain) or the record is rejected; transactions and environment never modify an existing record; an end-block changes a pending record only at a tally, only if it had no recipients and was created before the tallied round, only to the owner accepted for its NFT; set recipients are never overwritten; the published source list is exactly the unfilled records older than the cut-off. Correspondence on ABCI histories; the implementation's answers are also read against the property alone: fills at tallies (clauses 61-64) and, for NFTs on this chain, recipient = owner of the token the MESSAGE names (all 256 bits) when the block began, refusal when nobody owns it (clauses 65-66).",
                 note=PROOF_NOTE, technique="Coq proof: frame lemmas over the composed chain model + differential correspondence"),
     'C14': dict(text="Unbounded theorems: per denomination pool x 10^18 + credited is invariant under the reward step (what leaves the pool is what is credited); shares are non-negative and sum to at most the pool; each share is floor(pool*floor(10^18 w/W)/10^18), within one unit + pool/10^18 of proportional; credit lines give validator part + pro-bono contribution = integer share. All registered crisis invariants are evaluated on the real app after every block of every history (observed, not proved).",
                 note=PROOF_NOTE, technique="Coq proof (Dec arithmetic over Z, nia) + differential correspondence incl. per-validator outstanding rewards and community pool deltas"),
